@@ -2,6 +2,7 @@ import MesonModel.Options.InvOps
 import MesonModel.Options.MergeLemmas
 import MesonModel.Options.TopLemmas
 import MesonModel.Options.WfOps
+import MesonModel.Options.ParentOps
 /-
 C07 — option values resolve by the documented precedence and are always valid.
 Statements over the model `MesonModel.Options` (options.py:356-640, 773-1417; cmdline.py:222-241).
@@ -41,6 +42,112 @@ object it was read from (own value), or of the parent it yields to -/
 theorem own_value_conforms (ops : List Op) (cross : Bool) (id : Nat) (o : Obj)
     (ho : (run (Store.new cross) ops).heap[id]? = some o) : conforms o.kind o.value = true :=
   stored_value_valid_from_new ops cross o (List.mem_of_getElem? ho)
+
+/-! ### validity of *effective* values (what `get_value_for` reports, own or yielded) -/
+
+/-- `yielding_parent_same_kind`: `add_project_option` links a parent only when `type(parent) is type(valobj)`;
+as an invariant of every call sequence, a linked parent always has the child's class (same constructor —
+a feature option is *not* a combo option, although `UserFeatureOption` subclasses `UserComboOption`) -/
+theorem yielding_parent_same_kind (ops : List Op) (cross : Bool) (i pid : Nat) (o : Obj)
+    (ho : (run (Store.new cross) ops).heap[i]? = some o) (hp : o.parent = some pid) :
+    ∃ p : Obj, (run (Store.new cross) ops).heap[pid]? = some p ∧ p.kind.sameClass o.kind = true :=
+  parentOk_run ops _ (parentOk_new cross) i o pid ho hp
+
+/-- the Python type(s) an option class stores -/
+def classType : Kind → Val → Bool
+  | .string, .str _ => true
+  | .boolean, .bool _ => true
+  | .integer _ _, .int _ => true
+  | .umask, .int _ => true
+  | .umask, .str _ => true
+  | .combo _, .str _ => true
+  | .feature, .str _ => true
+  | .array _, .arr _ => true
+  | _, _ => false
+
+theorem classType_of_conforms {k : Kind} {v : Val} (h : conforms k v = true) : classType k v = true := by
+  cases k <;> cases v <;> simp_all [conforms, classType]
+
+theorem classType_sameClass {k k' : Kind} {v : Val} (h : k.sameClass k' = true) (hv : classType k v = true) :
+    classType k' v = true := by
+  cases k <;> cases k' <;> simp_all [Kind.sameClass, classType] <;> cases v <;> simp_all [classType]
+
+/-- what an option reports without override — its own value or, when yielding, its parent's — always has the
+type of the option's *own* class, in every reachable store -/
+theorem effective_value_has_own_type (ops : List Op) (cross : Bool) (k : Key) (id : Nat) (o : Obj) (v : Val)
+    (hr : resolveId (run (Store.new cross) ops) (ensureKey (run (Store.new cross) ops) k) = .ok id)
+    (ho : (run (Store.new cross) ops).heap[id]? = some o)
+    (ha : alookup (ensureKey (run (Store.new cross) ops) k) (run (Store.new cross) ops).augments = none)
+    (hv : getValueFor (run (Store.new cross) ops) k = .ok v) : classType o.kind v = true := by
+  have hval := stored_value_valid_from_new ops cross
+  have hpar := parentOk_run ops _ (parentOk_new cross)
+  generalize run (Store.new cross) ops = s at *
+  simp only [getValueFor, getIdAndValue, hr, ho, ha] at hv
+  by_cases hy : o.yielding = true
+  · simp only [hy, ↓reduceIte] at hv
+    cases hp : o.parent with
+    | none => simp [hp, Except.map] at hv
+    | some pid =>
+      obtain ⟨p, hpp, hsame⟩ := hpar id o pid ho hp
+      simp [hp, hpp, Except.map] at hv
+      subst hv
+      exact classType_sameClass hsame (classType_of_conforms (hval p (List.mem_of_getElem? hpp)))
+  · simp [hy, Except.map] at hv
+    subst hv
+    exact classType_of_conforms (hval o (List.mem_of_getElem? ho))
+
+/-- the full statement "an effective value satisfies the option's own type, choices and range" … -/
+def effective_value_valid_full : Prop :=
+  ∀ (ops : List Op) (cross : Bool) (k : Key) (id : Nat) (o : Obj) (v : Val),
+    resolveId (run (Store.new cross) ops) (ensureKey (run (Store.new cross) ops) k) = .ok id →
+    (run (Store.new cross) ops).heap[id]? = some o →
+    alookup (ensureKey (run (Store.new cross) ops) k) (run (Store.new cross) ops).augments = none →
+    getValueFor (run (Store.new cross) ops) k = .ok v → conforms o.kind v = true
+
+def ymTop : Key := ⟨"ym".toList, some [], .host⟩
+def ymSub : Key := ⟨"ym".toList, some "sub".toList, .host⟩
+def ymOps : List Op :=
+  [.addProject ymTop { kind := .combo ["a".toList, "b".toList, "c".toList], default := .str "c".toList },
+   .addProject ymSub { kind := .combo ["a".toList, "b".toList], default := .str "a".toList, yielding := true }]
+
+/-- … is false of the code: a yielding combo option with choices `[a, b]` reports `c` when the same-class
+parent, whose choices are `[a, b, c]`, holds `c` (recorded finding `effective-value-invalid:yield:C->C`;
+classes are compared, choices and ranges are not) -/
+theorem effective_value_valid_counterexample : ¬ effective_value_valid_full := by
+  intro h
+  have := h ymOps false ymSub 1
+    { kind := .combo ["a".toList, "b".toList], value := .str "a".toList, default := .str "a".toList,
+      yielding := true, readonly := false, parent := some 0 } (.str "c".toList) (by rfl) (by rfl) (by rfl) (by rfl)
+  revert this
+  decide
+
+/-- `effective_value_valid_partial`: it holds whenever the linked parent is declared with the same class *and*
+limits (`p.kind = o.kind`), in particular for every non-yielding option -/
+theorem effective_value_valid_partial (ops : List Op) (cross : Bool) (k : Key) (id : Nat) (o : Obj) (v : Val)
+    (hr : resolveId (run (Store.new cross) ops) (ensureKey (run (Store.new cross) ops) k) = .ok id)
+    (ho : (run (Store.new cross) ops).heap[id]? = some o)
+    (ha : alookup (ensureKey (run (Store.new cross) ops) k) (run (Store.new cross) ops).augments = none)
+    (hsame : o.yielding = true → ∀ pid p, o.parent = some pid →
+      (run (Store.new cross) ops).heap[pid]? = some p → p.kind = o.kind)
+    (hv : getValueFor (run (Store.new cross) ops) k = .ok v) : conforms o.kind v = true := by
+  have hval := stored_value_valid_from_new ops cross
+  generalize run (Store.new cross) ops = s at *
+  simp only [getValueFor, getIdAndValue, hr, ho, ha] at hv
+  by_cases hy : o.yielding = true
+  · simp only [hy, ↓reduceIte] at hv
+    cases hp : o.parent with
+    | none => simp [hp, Except.map] at hv
+    | some pid =>
+      cases hpp : s.heap[pid]? with
+      | none => simp [hp, hpp, Except.map] at hv
+      | some p =>
+        simp [hp, hpp, Except.map] at hv
+        subst hv
+        rw [← hsame hy pid p hp hpp]
+        exact hval p (List.mem_of_getElem? hpp)
+  · simp [hy, Except.map] at hv
+    subst hv
+    exact hval o (List.mem_of_getElem? ho)
 
 /-- `invalid_rejected`: `set_option` on an existing option (no prefix/builtin sanitisation in the way) with a
 value its class rejects raises, and the store is exactly what it was -/
